@@ -1617,8 +1617,13 @@ namespace adept {
     }
 
     // By design, FixedArrays are row-major and row-wise access is
-    // contiguous
-    bool all_arrays_contiguous_() const { return true; }
+    // contiguous, but rows are not padded so for rank>1 they only
+    // start at the same alignment if the row length is a multiple of
+    // the packet size
+    bool all_arrays_contiguous_() const {
+      return rank == 1
+	|| dimension_<rank-1>::value % Packet<Type>::size == 0;
+    }
  
     bool is_aligned_() const {
       return !(reinterpret_cast<std::size_t>(data_) & Packet<Type>::align_mask);
